@@ -339,7 +339,9 @@ def run_case(c):
             k = {f: [x.decode('utf-8', 'replace') for x in info[f]] for f in wire.KEX_FIELDS}
             want = {'kex': k['kex'], 'key': k['key'], 'enc': k['enc_sc'], 'mac': k['mac_sc']}
             got = {cat: rep.names(cat) for cat in want}
-            if got != {cat: [x for x in want[cat] if x.strip()] for cat in want}:
+            # names the mutation made RFC-illegal (control characters, spaces, non-ASCII) are outside what a report can list faithfully: only presence of a report is demanded then
+            legal = all(0x21 <= ord(ch) <= 0x7e for cat in want for x in want[cat] for ch in x)
+            if legal and got != {cat: [x for x in want[cat] if x.strip()] for cat in want}:
                 viol.append(_v('C09/report-incomplete', 'report names differ from the KEXINIT that was delivered', got=got, want=want))
         else:
             ciphers, auths = wire.ssh1_names(*info)
